@@ -84,12 +84,18 @@ func newSegment(path string, baseOffset, maxBytes int64, isNew bool, suffix stri
 		suffix:      suffix,
 		waiters:     make(map[interface{}]chan struct{}),
 	}
-	// If this is a new segment, ensure the file doesn't already exist.
-	if isNew && exists(s.logPath()) {
-		return nil, ErrSegmentExists
+	// If this is a new segment, ensure the file doesn't already exist. Create
+	// it exclusively since segments can be rolled concurrently, in which case
+	// only one caller may end up owning the files.
+	flags := os.O_RDWR | os.O_CREATE | os.O_APPEND
+	if isNew {
+		flags |= os.O_EXCL
 	}
-	log, err := os.OpenFile(s.logPath(), os.O_RDWR|os.O_CREATE|os.O_APPEND, 0644)
+	log, err := os.OpenFile(s.logPath(), flags, 0644)
 	if err != nil {
+		if isNew && os.IsExist(err) {
+			return nil, ErrSegmentExists
+		}
 		return nil, errors.Wrap(err, "open file failed")
 	}
 	info, err := log.Stat()
